@@ -40,6 +40,7 @@ type localCfg struct {
 	V4       bool   `json:"v4"`
 	V6       bool   `json:"v6"`
 	V4MP     bool   `json:"v4mp,omitempty"`
+	NHExt    bool   `json:"nhext,omitempty"` // extended next hop encoding for IPv4 (brings the IPv4 multiprotocol capability with it)
 	APRecvV4 bool   `json:"ap_recv_v4,omitempty"`
 	APSendV4 bool   `json:"ap_send_v4,omitempty"`
 	APRecvV6 bool   `json:"ap_recv_v6,omitempty"`
@@ -57,6 +58,8 @@ var locals = []localCfg{
 	{Name: "ibgp-v4v6-aprecv4", LocalAS: 65000, PeerAS: 65000, V4: true, V6: true, APRecvV4: true, Hold: 90},
 	{Name: "ebgp-v4v6-apsend4-aprecv6", LocalAS: 65000, PeerAS: 65001, V4: true, V6: true, APSendV4: true, APRecvV6: true, Hold: 30},
 	{Name: "ebgp-v4mp-apboth", LocalAS: 65000, PeerAS: 65001, V4: true, V4MP: true, V6: true, APRecvV4: true, APSendV4: true, APRecvV6: true, APSendV6: true, Hold: 90},
+	{Name: "ebgp-v4-exthop", LocalAS: 65000, PeerAS: 65001, V4: true, NHExt: true, Hold: 90},
+	{Name: "ibgp-v4v6-exthop-v4mp", LocalAS: 65000, PeerAS: 65000, V4: true, V6: true, NHExt: true, V4MP: true, Hold: 90},
 	{Name: "ebgp-role-provider", LocalAS: 65000, PeerAS: 65001, V4: true, Hold: 90, Role: server.PeerConfigRoleProvider},
 	{Name: "ebgp-role-customer-strict", LocalAS: 65000, PeerAS: 65001, V4: true, Hold: 90, Role: server.PeerConfigRoleCustomer, Strict: true},
 	{Name: "ebgp-role-peer-strict", LocalAS: 65000, PeerAS: 65001, V4: true, V6: true, Hold: 90, Role: server.PeerConfigRolePeer, Strict: true},
@@ -266,7 +269,7 @@ func runCaseOnce(idx int, raw json.RawMessage) (res batch.Result, stalled bool) 
 	pc := speaker.PeerConfig{LocalAS: l.LocalAS, PeerAS: l.PeerAS, HoldTime: time.Duration(l.Hold) * time.Second, NoHold: l.Hold == 0,
 		Role: l.Role, RoleStrict: l.Strict, AdvertiseIPv4MP: l.V4MP}
 	if l.V4 {
-		pc.IPv4 = &speaker.Family{AddPathRecv: l.APRecvV4, AddPathSend: l.APSendV4}
+		pc.IPv4 = &speaker.Family{AddPathRecv: l.APRecvV4, AddPathSend: l.APSendV4, NextHopExtended: l.NHExt}
 	}
 	if l.V6 {
 		pc.IPv6 = &speaker.Family{AddPathRecv: l.APRecvV6, AddPathSend: l.APSendV6}
